@@ -89,14 +89,19 @@ impl InstructionHistogram {
 }
 struct Metrics { block_insertion: InstructionHistogram, block_ingestion_stats: BlockIngestionStats, opaque: u64 }
 
-// [trusted:stand-in] runtime: instruction counter (monotone within a message), wall clock
+// [trusted:stand-in] runtime::performance_counter: abstracted as one arbitrary value per message (the IC counter is
+// monotone, so differences never underflow); instruction counts feed only metrics and the variable fee part, whose
+// formula is verified for EVERY count
+uninterp spec fn perf_spec() -> u64;
 #[verifier::external_body]
-fn performance_counter() -> (r: u64) { unimplemented!() }
+fn performance_counter() -> (r: u64) ensures r == perf_spec() { unimplemented!() }
 // [trusted:stand-in] std::time::Duration
 #[derive(Clone, Copy)]
 struct Duration { secs: u64, nanos: u32 }
+// the time of the current message
+uninterp spec fn now_spec() -> Duration;
 #[verifier::external_body]
-fn duration_since_epoch() -> (r: Duration) { unimplemented!() }
+fn duration_since_epoch() -> (r: Duration) ensures r == now_spec() { unimplemented!() }
 
 //@extract file=interface/src/lib.rs item="struct Fees"
 //@ rewrite R2? "#\[derive\(([^\]]*)\)\]" => ""
@@ -334,4 +339,98 @@ spec fn wf_headers_ingesting(s: &State) -> bool {
 //@| proof { state.unstable_blocks.tree.lemma_depth_pos(); }
 //@ before "match state.utxos.ingest_block_continue() {"
 //@| let ghost vp_pre_blocks = state.unstable_blocks;
+//@end
+
+// ---------------------------------------------------------------------------------------
+// C10: admission of a block
+// ---------------------------------------------------------------------------------------
+//@extract file=canister/src/validation.rs item="enum ValidationContextError"
+//@ rewrite R2? "#\[derive\(([^\]]*)\)\]" => ""
+//@end
+// [trusted:stand-in] ic_btc_validation::{ValidateBlockError, BlockValidator}: proved against the consensus spec in unit `valid`;
+// here only "validate_block is a function of (context chain, block, time) that does not touch the state"
+struct ValidateBlockError { code: u8 }
+//@extract file=canister/src/state.rs item="enum InsertBlockError"
+//@ rewrite R2? "#\[derive\(([^\]]*)\)\]" => ""
+//@end
+//@extract file=canister/src/state.rs item="impl From<ValidationContextError> for InsertBlockError"
+//@end
+//@extract file=canister/src/state.rs item="impl From<ValidateBlockError> for InsertBlockError"
+//@end
+impl vstd::std_specs::convert::FromSpecImpl<ValidationContextError> for InsertBlockError {
+    closed spec fn obeys_from_spec() -> bool { true }
+    closed spec fn from_spec(v: ValidationContextError) -> Self { InsertBlockError::InvalidContext(v) }
+}
+impl vstd::std_specs::convert::FromSpecImpl<ValidateBlockError> for InsertBlockError {
+    closed spec fn obeys_from_spec() -> bool { true }
+    closed spec fn from_spec(v: ValidateBlockError) -> Self { InsertBlockError::InvalidBlock(v) }
+}
+
+// [trusted:stand-in] bitcoin::Network as produced by into_bitcoin_network
+#[derive(Clone, Copy, PartialEq, Eq, Structural)]
+enum BitcoinNetwork { Bitcoin, Testnet4, Regtest }
+//@extract file=canister/src/types.rs item="fn into_bitcoin_network" props=C10
+//@ ret r
+//@ spec
+//@| ensures r == (match network { Network::Mainnet => BitcoinNetwork::Bitcoin, Network::Testnet => BitcoinNetwork::Testnet4, Network::Regtest => BitcoinNetwork::Regtest }),
+//@end
+
+// the parent of `header` is the anchor or an unstable block, and `header` is not already one of that parent's children
+spec fn ctx_error_spec(s: &State, header: Header, hash: BlockHash) -> Option<ValidationContextError> {
+    let parent = BlockHash(header.prev_blockhash.0);
+    if !s.unstable_blocks.tree.contains(parent) { Some(ValidationContextError::BlockDoesNotExtendTree(hash)) }
+    else if exists|i: int| 0 <= i < s.unstable_blocks.tree.subtree_at(s.unstable_blocks.tree.idx_path_to(parent)).children@.len()
+        && (#[trigger] s.unstable_blocks.tree.subtree_at(s.unstable_blocks.tree.idx_path_to(parent)).children@[i]).root.block_hash == hash
+        { Some(ValidationContextError::AlreadyKnown(hash)) }
+    else { None }
+}
+uninterp spec fn header_hash(h: Header) -> BlockHash;
+uninterp spec fn block_valid_spec(s: &State, block: &Block, now: Duration) -> Option<ValidateBlockError>;
+
+struct ValidationContext<'a> { state: &'a State, header: Header }
+impl<'a> ValidationContext<'a> {
+    // [trusted:assumed-contract] ValidationContext::new (validation.rs:22; `.any(..)`, `.map(..).collect()` pipelines):
+    // BlockDoesNotExtendTree iff the parent is not in the unstable tree; AlreadyKnown iff the block is among the parent's
+    // children; otherwise a context for that header over the same (unchanged) state.
+    #[verifier::external_body]
+    fn new(state: &'a State, header: &Header) -> (r: Result<ValidationContext<'a>, ValidationContextError>)
+        ensures
+            r matches Ok(c) ==> ctx_error_spec(state, *header, header_hash(*header)).is_none() && c.state == state && c.header == *header,
+            r matches Err(e) ==> ctx_error_spec(state, *header, header_hash(*header)) == Some(e),
+    { unimplemented!() }
+}
+struct BlockValidator<'a> { ctx: ValidationContext<'a>, network: BitcoinNetwork }
+impl<'a> BlockValidator<'a> {
+    #[verifier::external_body]
+    fn new(ctx: ValidationContext<'a>, network: BitcoinNetwork) -> (r: BlockValidator<'a>)
+        ensures r.ctx == ctx, r.network == network,
+    { unimplemented!() }
+    // [trusted:assumed-contract] BlockValidator::validate_block: pure function of (state behind the context, block, time) — its
+    // meaning is what unit `valid` proves (C11, C12)
+    #[verifier::external_body]
+    fn validate_block(&self, block: &Block, now: Duration) -> (r: Result<(), ValidateBlockError>)
+        ensures
+            r.is_ok() <==> block_valid_spec(self.ctx.state, block, now).is_none(),
+            r matches Err(e) ==> block_valid_spec(self.ctx.state, block, now) == Some(e),
+    { unimplemented!() }
+}
+
+//@extract file=canister/src/state.rs item="fn insert_block" props=C10
+//@ ret r
+//@ spec
+//@| requires
+//@|     header_hash(block.header) == block.hash,
+//@| ensures
+//@|     // admitted iff new, connected and valid
+//@|     r.is_ok() <==> (ctx_error_spec(old(state), block.header, block.hash).is_none()
+//@|                     && block_valid_spec(old(state), &block, now_spec()).is_none()),
+//@|     // rejects are atomic: nothing at all changes
+//@|     r.is_err() ==> *final(state) == *old(state),
+//@|     // on success exactly that block is appended below its parent; nothing else but the insertion histogram changes
+//@|     r.is_ok() ==> final(state).unstable_blocks.tree == tree_extended(old(state).unstable_blocks.tree, block.hash, block.header)
+//@|         && final(state).utxos == old(state).utxos
+//@|         && final(state).stable_block_headers == old(state).stable_block_headers
+//@|         && final(state).syncing_state == old(state).syncing_state
+//@|         && final(state).fees == old(state).fees
+//@|         && final(state).api_access == old(state).api_access,
 //@end
